@@ -26,7 +26,8 @@ pub const KINDS: &[&str] = &[
     "[HitObjects]", "[Variables]", "[CatchTheBeat]", "[Mania]", "[Unknown]", "[Colors]", "[general]", " [General]", "[General] // x", "[General]x", "[]", "[General", "General]", "[[General]]", "[ General ]", "Mode: 1",
     "Title:a // b", "Title: Re:Zero", "0,0,\"bg.png\",0,0", "10,500,4,1,0,100,1,0", "Combo1: 1,2,3", "256,192,100,1,0,0:0:0:0:", "garbage", "a:b:c", "100,100,200,2,0,B|1:1|2:2,1,50", "x\ry", "\u{3000}", "Title:\u{4e00}x",
     "Title:é", "Artist:\u{1F600} tail", "BeatDivisor: x", "HPDrainRate:NaN", "-1,-1,-1", "2,100,50", "[HitObjects]\t", "[Events]   ", "//[General]", "$var=1", "Mania: 4K", "[Metadata)", "[General}", "[HitObjects1", "(General]", "[General]]", "{General}", "[TimingPoints>", " Mode: 3", "_indented", " 256,192,100,1,0",
-    "Title:x // y", "Artist:AC//DC",
+    "Title:x // y", "Artist:AC//DC", "\u{3000}// c", "\u{b}//c", "\u{a0}// c", "\u{2003}//", "\u{feff}osu file format v9", "\u{feff}", "\u{feff}[General]", "\0", "\0[General]", "\0osu file format v9",
+    "Creator:me\u{1a}", "\u{1a}", "osu file format v9\u{1a}", "[Metadata]\u{1a}", "Title:t\u{7f}", "\u{c}// ff",
 ];
 
 /// Characters whose UTF-16 code units contain the byte 0x0A (or 0x0D): framing must not be confused by them.
